@@ -26,7 +26,7 @@ fn spec(t: Tier) -> Spec {
     Spec {
         id: "C03",
         level: "exploration",
-        rule: format!("every ordered forest of directories, files and links to a directory (walked under -P and -L) with <= {n} nodes (sibling names B,Z,_,a,a.b,é: byte order differs from case-folded order) x every subset of its directories (and the starting point) selected for pruning x 3 expression forms (path alternation before -prune -o -print; -print before the prune test; -name TEST -prune -o -print) x (pre-order | -depth | unreachable -delete, the latter two written before and after the expression holding -prune) x 5 depth windows x (-sorted: exact sequence | unsorted: multiset + parent/child order); non-trivial = case with a non-empty prune set"),
+        rule: format!("every ordered forest of directories, files and links to a directory (walked under -P and -L) with <= {n} nodes (sibling names B,Z,_,a,a.b,é: byte order differs from case-folded order) x every subset of its directories (and the starting point) selected for pruning x 3 expression forms (path alternation before -prune -o -print; -print before the prune test; -name TEST -prune -o -print) x (pre-order | -depth | unreachable -delete, the latter two written before and after the expression holding -prune) x 5 depth windows x (-sorted: exact sequence | unsorted: multiset + parent/child order); scale slice: one hand-built tree (sibling names of 1, 15, 16, 17, 32 and 33 bytes sharing 16-byte prefixes, a chain six directories deep, a link to a directory between later siblings, a directory of 40 files) with every single and every pair of directories/links pruned, every name, all forms and windows, pre-order/-depth/unreachable -delete, -sorted on/off, -P/-L; non-trivial = case with a non-empty prune set"),
         bound: json!({"max_nodes": n, "forms": ["paths-prune-or-print", "print-then-prune", "name-prune-or-print"], "orders": ["pre", "-depth", "unreachable -delete", "-depth after", "unreachable -delete after"], "windows": ["none","min1","max1","max2","min1 max2"]}),
         assumptions: vec!["-prune's truth value is true in both walk orders (the statement only fixes its effect on the walk)".into()],
         shards: 0,
@@ -327,9 +327,107 @@ fn run(ctx: &mut Ctx) {
             run_tree(ctx, &f);
         }
     }
+    scale_slice(ctx);
+}
+
+/// One hand-built tree beyond the exhaustive bound: sibling names of 15, 16, 17, 32 and 33 bytes
+/// sharing long prefixes next to 1-byte names (byte order must hold at every length), a chain six
+/// directories deep with files at every level, a link to a directory between later siblings, 40
+/// files in one directory. Prune sets: every single directory or link, and every pair; all forms,
+/// orders, windows, -sorted on/off, -P/-L.
+fn scale_slice(ctx: &mut Ctx) {
+    let mut fs = Fs::new();
+    let out = fs.add(0, "out", K::Dir);
+    let d = fs.add(out, "d", K::Dir);
+    fs.add(d, "g", K::File);
+    let r = fs.add(0, "r", K::Dir);
+    let a16 = "a".repeat(16);
+    for n in ["b", "B", &format!("{a16}z"), &a16, &a16[..15], &format!("{a16}{}", "b".repeat(16)), &format!("{a16}{}", "b".repeat(17)), "z"] {
+        fs.add(r, n, K::File);
+    }
+    let long_dir = fs.add(r, &format!("{a16}{a16}"), K::Dir);
+    fs.add(long_dir, "in", K::File);
+    let mut cur = fs.add(r, "c", K::Dir);
+    for lvl in 0..6 {
+        fs.add(cur, &format!("f{lvl}"), K::File);
+        cur = fs.add(cur, "n", K::Dir);
+    }
+    fs.add(r, "l", K::Link("../out/d".into()));
+    let sdir = fs.add(r, "s", K::Dir);
+    let u = fs.add(sdir, "u", K::Dir);
+    fs.add(u, "g", K::File);
+    let many = fs.add(r, "m", K::Dir);
+    for i in 0..40 {
+        fs.add(many, &format!("e{i:02}"), K::File);
+    }
+    let sbx = ctx.sbx.clone();
+    crate::sandbox::clear_dir(&sbx);
+    if let Err(e) = crate::sandbox::materialize(&fs, 0, &sbx).and_then(|_| crate::sandbox::validate(&fs, 0, &sbx)) {
+        ctx.rep.machinery(format!("tree builder (scale slice): {e}"));
+        return;
+    }
+    let mut dirs = vec![r];
+    fn collect(fs: &Fs, n: usize, out: &mut Vec<usize>) {
+        for &c in &fs.nodes[n].children {
+            if fs.is_dir(c) {
+                out.push(c);
+                collect(fs, c, out);
+            } else if fs.is_link(c) {
+                out.push(c);
+            }
+        }
+    }
+    collect(&fs, r, &mut dirs);
+    let mut sets: Vec<Vec<usize>> = vec![vec![]];
+    for i in 0..dirs.len() {
+        sets.push(vec![dirs[i]]);
+        for j in i + 1..dirs.len() {
+            sets.push(vec![dirs[i], dirs[j]]);
+        }
+    }
+    let mut names: Vec<String> = fs.nodes.iter().skip(1).map(|n| n.name.clone()).collect();
+    names.sort();
+    names.dedup();
+    let mut job = 0u64;
+    for form in [Form::PathsPruneOrPrint, Form::PrintThenPrune, Form::NamePruneOrPrint] {
+        let these: Vec<(Vec<usize>, String)> = if form == Form::NamePruneOrPrint { names.iter().map(|n| (vec![], n.clone())).collect() } else { sets.iter().map(|s| (s.clone(), String::new())).collect() };
+        for (set, name) in these {
+            for order in [Order::Pre, Order::Depth, Order::DeleteAfter] {
+                for win in WINDOWS {
+                    for (sorted, follow) in [(true, Follow::P), (true, Follow::L), (false, Follow::P)] {
+                        job += 1;
+                        if job % ctx.nshards != ctx.shard {
+                            continue;
+                        }
+                        let c = Case { form, order, win, sorted, follow, set: set.clone(), name: name.clone() };
+                        ctx.rep.evaluations += 1;
+                        ctx.rep.nontrivial += 1;
+                        ctx.rep.count("scale_cases", 1);
+                        let want = expected(&fs, &c);
+                        let av = argv(&fs, &c);
+                        let args: Vec<&str> = av.iter().map(|s| s.as_str()).collect();
+                        let got = run_find(&args);
+                        if let Some((sig, detail)) = judge(&c, &want, &got) {
+                            let d: String = detail.chars().take(1500).collect();
+                            ctx.rep.violation(&sig, format!("scale tree ; find {:?}\n{d}", av), json!({"prop":"C03","scale":true}));
+                        }
+                    }
+                }
+            }
+        }
+    }
 }
 
 fn replay(case: &Value, ctx: &mut Ctx) -> Option<String> {
+    if case["scale"] == true {
+        let (s0, n0) = (ctx.shard, ctx.nshards);
+        ctx.shard = 0;
+        ctx.nshards = 1;
+        scale_slice(ctx);
+        ctx.shard = s0;
+        ctx.nshards = n0;
+        return ctx.rep.violations.keys().next().cloned();
+    }
     let forest = tree::decode_forest(case["forest"].as_str()?)?;
     let fs = c03_fs(&forest);
     let sbx = ctx.sbx.clone();
